@@ -132,7 +132,8 @@ def _check_list(run, v, rid, label, exit_node, wants, where):
     texts = v.fact_texts(exit_node)
     done = v.completed(exit_node)
     for key, alts, msg in wants:
-        ok = any(a in texts or a in done for a in alts)
+        # a completed call stands for `loaded` / `parsed` only; a check must hold as a fact (a negated test completes the call as well)
+        ok = any(a in texts or (a in done and (key.endswith("-loaded") or key.endswith("parsed"))) for a in alts)
         run.check(rid, ok, f"{label}: {key}", key=f"{v.fn.qualname}|{key}", where=where,
                   message=f"{label} can finish without error although {msg} "
                           f"(no dominating `{alts[0]}`)")
@@ -262,7 +263,7 @@ def _ledger(run):
     ]
     for key, alts, msg in wants:
         alts = [_strip(_fold_names(a, consts)) for a in alts]
-        ok = any(a in texts or a in done for a in alts)
+        ok = any(a in texts or (a in done and key.endswith("-loaded")) for a in alts)
         run.check("R1", ok, f"ledger verify: {key}", key=f"{fn.qualname}|{key}", where=fn.loc(),
                   message=f"the Ledger verify command can finish without error although {msg} "
                           f"(no dominating `{alts[0][:120]}`)")
@@ -470,7 +471,9 @@ def _sgx(run):
         res, msg, wants = forms(root)
         for key, a, m in wants:
             a = _strip(a)
-            per_key.setdefault(key, []).append((a in texts or a in done, a, m))
+            # loading / parsing is a call that completed; a check is a fact that holds (a negated test also completes the call)
+            holds = (a in done or a in texts) if key in ("root-loaded", "certificate-loaded", "parsed") else (a in texts)
+            per_key.setdefault(key, []).append((holds, a, m))
     for key, lst in per_key.items():
         ok = all(x[0] for x in lst)
         miss = next((x for x in lst if not x[0]), lst[0])
